@@ -79,7 +79,7 @@ class Report:
         print('NOTE: ' + text)
 
     # finish ----------------------------------------------------------------
-    def finish(self):
+    def finish(self, write_evidence=True):
         known = [k for k in load_known() if k['property'] == self.pid and k['kind'] == 'known']
         unlisted = []
         listed = []
@@ -99,6 +99,10 @@ class Report:
                 continue
             seen_sites.add(v.site)
             print('KNOWN-FINDING: property=%s site=%s %s' % (self.pid, v.site, k['text']))
+        global REPLAY_DIR
+        if not write_evidence:
+            import tempfile
+            REPLAY_DIR = tempfile.mkdtemp(prefix='binson-replay-')
         os.makedirs(REPLAY_DIR, exist_ok=True)
         # remove stale replay files of this property
         for fn in os.listdir(REPLAY_DIR):
@@ -140,10 +144,14 @@ class Report:
             'wall_s': round(time.time() - self.t0, 3),
             'violations': len(unlisted),
         }
-        os.makedirs(EVIDENCE_DIR, exist_ok=True)
-        with open(os.path.join(EVIDENCE_DIR, self.pid + '.json'), 'w') as fh:
-            json.dump(ev, fh, indent=1, sort_keys=True, default=str)
-            fh.write('\n')
+        if write_evidence:
+            os.makedirs(EVIDENCE_DIR, exist_ok=True)
+            with open(os.path.join(EVIDENCE_DIR, self.pid + '.json'), 'w') as fh:
+                json.dump(ev, fh, indent=1, sort_keys=True, default=str)
+                fh.write('\n')
+        else:
+            import shutil
+            shutil.rmtree(REPLAY_DIR, ignore_errors=True)
         print('%s [%s]: %d obligations, %d discharged, %d known, %d violations, %.1fs' % (
             self.pid, self.tier, self.obligations, self.discharged, len(listed), len(unlisted), time.time() - self.t0))
         return 1 if unlisted else 0
